@@ -184,6 +184,13 @@ def witnessSigOps (scriptSig pk : Bytes) (witness : List Bytes) : Nat :=
       | none => 0
     else 0
 
+/-- `GetTransactionSigOpCost` (P2SH and witness flags on, not a coinbase) on the scripts of a
+    transaction: one `(scriptSig, witness, spent scriptPubKey)` per input, the output scripts. -/
+def txSigOpCost (ins : List (Bytes × List Bytes × Bytes)) (outs : List Bytes) : Nat :=
+  WITNESS_SCALE_FACTOR * ((ins.map (fun i => sigOps false i.1)).sum + (outs.map (sigOps false)).sum)
+  + WITNESS_SCALE_FACTOR * (ins.map (fun i => if isP2SH i.2.2 then p2shSigOps i.1 i.2.2 else 0)).sum
+  + (ins.map (fun i => witnessSigOps i.1 i.2.2 i.2.1)).sum
+
 /-! ### witness commitment -/
 
 def isCommitmentScript (pk : Bytes) : Bool :=
